@@ -1,3 +1,4 @@
+#[cfg_attr(feature = "verif", derive(Clone))]
 #[derive(Eq, PartialEq)]
 pub enum SessionState {
     Started,
